@@ -27,6 +27,11 @@ PLAIN = (type(None), bool, int, float, str, bytes)
 
 def configs(tier, seed):
   cfgs = [dict(name='routes', mode='routes'), dict(name='selftest-insecure', mode='selftest', insecure=True)]
+  # the setting itself, spelled in every way a carbon.conf may say "off" (or fail to): the daemon must either refuse to
+  # start or run with the safe unpickler
+  for i, sp in enumerate(['False', 'false', 'FALSE', 'no', 'off', '0', 'False  ; not on this host', 'False # comment', 'disabled',
+                          'none', 'f', '', 'No', 'Off', '00', 'False False']):
+    cfgs.append(dict(name='spelling/%d' % i, mode='spelling', spelling=sp))
   nshard = 8 if tier == 'quick' else 16
   for s in range(nshard):
     cfgs.append(dict(name='sweep/%d' % s, mode='sweep', shard=s, nshard=nshard, stride=1))
@@ -190,7 +195,18 @@ def run_config(cfg, res):
   import resource
   resource.setrlimit(resource.RLIMIT_AS, (4 << 30, 4 << 30))
   from vlib import boot
-  ns = boot.boot('carbon-cache', {'USE_INSECURE_UNPICKLER': bool(cfg.get('insecure'))})
+  if cfg['mode'] == 'spelling':
+    try:
+      ns = boot.boot('carbon-cache', {'USE_INSECURE_UNPICKLER': cfg['spelling']}, instance='b',
+                     instance_conf={'USE_INSECURE_UNPICKLER': cfg['spelling']} if cfg['name'].endswith(('1', '3', '5', '7')) else None)
+    except (Exception, SystemExit) as e:
+      res.count('daemon_refused_to_start')
+      res.case('spelling:' + cfg['spelling'], nontrivial=True)
+      res.sample(dict(spelling=cfg['spelling'], outcome='refused to start: %r' % (e,)))
+      return
+    res.count('daemon_started_with_spelling')
+  else:
+    ns = boot.boot('carbon-cache', {'USE_INSECURE_UNPICKLER': bool(cfg.get('insecure'))})
   from twisted.internet.testing import StringTransport
   import carbon.protocols as protocols
   from carbon import events
@@ -302,6 +318,14 @@ def run_config(cfg, res):
     res.sample(dict(selftest_fired=res.counters.get('selftest_monitor_fired', 0)))
     return
 
+  if cfg['mode'] == 'spelling':
+    for mod, name in [('verif_canary', 'boom'), ('verif_canary', 'Bomb'), ('builtins', 'getattr'), ('os', 'getpid')]:
+      for label, ops in routes_for(mod, name):
+        feed(wrap(ops, 0, 'value'), [(mod, name)], 'spelling/' + label)
+        feed(wrap(ops, 2, 'value'), [(mod, name)], 'spelling-nested/' + label)
+    res.sample(dict(spelling=cfg['spelling'], outcome='started'))
+    return
+
   if cfg['mode'] == 'sweep':
     pairs = []
     for mname in sorted(sys.modules):
@@ -377,6 +401,8 @@ def finalize(merged, tier):
   out = []
   if not c.get('selftest_monitor_fired'):
     out.append('monitor self-test did not fire')
+  if not c.get('daemon_refused_to_start') or not c.get('daemon_started_with_spelling'):
+    out.append('configuration spellings: refused=%r started=%r' % (c.get('daemon_refused_to_start'), c.get('daemon_started_with_spelling')))
   if not c.get('pairs_swept') or not c.get('route_cases'):
     out.append('sweep or route cases missing: %r' % c)
   return out
